@@ -294,15 +294,20 @@ func RequiredGuards(r *core.Run, guards []RequiredGuard) {
 				}
 				for i, st := range list {
 					ifs, ok := st.(*ast.IfStmt)
-					if !ok || !bodyReturnsError(info, ifs.Body, errIdx, inLit) {
+					if !ok {
 						continue
 					}
 					var prev ast.Stmt
 					if i > 0 {
 						prev = list[i-1]
 					}
-					if g.Match(info, ifs, prev) {
-						found = true
+					// the statement itself and every else-if of its chain
+					for cur := ifs; cur != nil; {
+						if bodyReturnsError(info, cur.Body, errIdx, inLit) && g.Match(info, cur, prev) {
+							found = true
+						}
+						next, _ := cur.Else.(*ast.IfStmt)
+						cur = next
 					}
 				}
 				return true
